@@ -3,8 +3,6 @@
 use crate::driver::ctx::{Ctx, Violation};
 use serde_json::Value;
 
-pub mod c12;
-
 pub struct Meta {
     pub id: &'static str,
     pub level: &'static str,
@@ -14,38 +12,24 @@ pub struct Meta {
     pub max_shards: usize,
 }
 
-pub fn all_ids() -> Vec<&'static str> {
-    vec!["C12"]
+macro_rules! registry {
+    ($($m:ident),* $(,)?) => {
+        $(pub mod $m;)*
+        pub fn all_ids() -> Vec<&'static str> {
+            vec![$($m::ID),*]
+        }
+        pub fn meta(id: &str) -> Option<Meta> {
+            $(if id == $m::ID { return Some($m::meta()); })*
+            None
+        }
+        pub fn run_shard(id: &str, ctx: &mut Ctx) {
+            $(if id == $m::ID { return $m::run_shard(ctx); })*
+        }
+        pub fn replay(id: &str, label: &str, case: &Value, ctx: &mut Ctx) -> Option<Violation> {
+            $(if id == $m::ID { return $m::replay(label, case, ctx); })*
+            None
+        }
+    };
 }
 
-pub fn meta(id: &str) -> Option<Meta> {
-    Some(match id {
-        "C12" => Meta {
-            id: "C12",
-            level: "exploration",
-            rule: "cases = (D+1)-simplex + query point: every ordered tuple of the {0,1,2}^2 grid (exhaustive) and of the {0,1}^3 cube (exhaustive in thorough, a seed-chosen quarter in quick), plus proptest-generated integer/dyadic/cospherical/flat/translated tuples for D=2..5, each under all (D<=3) or up to 24 vertex permutations; an evaluation = one predicate call compared with the exact sign when the determinant is outside tol+rounding bound; non-trivial = exact orientation or in-sphere determinant is 0, or |det| < 1024*(tol+bound); distinct by coordinate tuple",
-            assumptions: &[
-                "tolerance band = base_tol + 1e-12*max row sum (geometry/matrix.rs::adaptive_tolerance); rounding bound = 2*gamma_n*sum|cof_ij|(|L||U|)_ij from a mirrored GEPP, see DESIGN 2.1",
-                "insphere_distance is held only to the no-opposite-strict-answers cross-check",
-                "no demand on in-sphere answers when the simplex itself is flat or in band",
-            ],
-            exhaustive: false,
-            max_shards: 8,
-        },
-        _ => return None,
-    })
-}
-
-pub fn run_shard(id: &str, ctx: &mut Ctx) {
-    match id {
-        "C12" => c12::run_shard(ctx),
-        _ => {}
-    }
-}
-
-pub fn replay(id: &str, label: &str, case: &Value, ctx: &mut Ctx) -> Option<Violation> {
-    match id {
-        "C12" => c12::replay(label, case, ctx),
-        _ => None,
-    }
-}
+registry!(c01, c12);
